@@ -1,24 +1,28 @@
 """C14 — memory attributes (DESIGN §5 C14)."""
-import os, sys
-sys.path.insert(0, os.path.dirname(__file__))
-from _seed import seed_uw
 SRC = "C14_memattrs.c"
-COMMON = dict(src=SRC, env=["vp_alloc.c", "vp_libc.c"], units=["hwloc/bitmap.c", "hwloc/traversal.c"], unwind=14, checks="safety", object_bits=11, timeout=1700,
-              unwindset=seed_uw(**{"strcmp.0": 24, "strlen.0": 24, "strdup.0": 24, "realloc.0": 200}),
-              stubs=["seed environment stubs of vp_seed.h", "realloc: concrete word-copy model (table growth happens with concrete sizes)"],
-              assumptions=["allocation never fails", "seed S2: NUMA0 local to Package0 {PU0,PU1,PU2}, CPU-less NUMA2", "stored initiators: NUMA0:{PU0}, NUMA0:{PU1,PU2}, NUMA2:{PU0} with arbitrary 64-bit values"])
+COMMON = dict(src=SRC, env=["vp_alloc.c", "vp_libc.c"], units=["hwloc/bitmap.c"], unwind=8, checks="safety", object_bits=10, timeout=1500,
+              unwindset={"strcmp.0": 10, "strlen.0": 10, "strdup.0": 10, "setup.0": 24, "hwloc__imtg_destroy.0": 4},
+              stubs=["attribute table built directly in its representation (what register/set_value produce); targets are two fake NUMA node records",
+                     "hwloc_get_obj_by_type_and_gp_index: symbolic exists-table; hwloc_get_obj_by_depth/type_depth: a hand-linked 2-node NUMA level", "realloc: concrete model (table/initiator growth with concrete sizes)"],
+              assumptions=["allocation never fails", "stored initiators: NUMA0:{PU0}, NUMA0:{PU1,PU2}, NUMA2:{PU0} with arbitrary 64-bit values; attribute direction symbolic"])
 HARNESSES = [
-  dict(COMMON, name="register", entry="h_register", encoded=["hwloc_memattr_register", "hwloc_memattr_get_by_name", "hwloc_memattr_get_name", "hwloc_memattr_get_flags", "hwloc_internal_memattrs_prepare"], tiers={"quick": {}, "thorough": {}},
+  dict(COMMON, name="register", entry="h_register", encoded=["hwloc_memattr_register", "hwloc_memattr_get_by_name", "hwloc_memattr_get_name", "hwloc_memattr_get_flags", "hwloc__setup_memattr"], tiers={"quick": {}, "thorough": {}},
        bounds="flags: any 64-bit word; name: NULL, existing custom, existing standard, new"),
-  dict(COMMON, name="value_numa0", entry="h_value", defines={"TGT": 0}, encoded=["hwloc_memattr_set_value", "hwloc__internal_memattr_set_value", "hwloc_memattr_get_value", "hwloc__memattr_get_target", "hwloc__memattr_target_get_initiator", "match_internal_location", "to_internal_location", "from_internal_location", "hwloc_memattr_get_initiators"],
-       tiers={"quick": {}, "thorough": {}}, bounds="target NUMA0; initiator: any cpuset over 6 bits, an object, or NULL; any value, any flags", cost=40),
-  dict(COMMON, name="value_numa2", entry="h_value", defines={"TGT": 1}, encoded=["hwloc_memattr_set_value", "hwloc_memattr_get_value"], tiers={"quick": {}, "thorough": {}}, bounds="target NUMA2 (CPU-less); as value_numa0", cost=40),
-  dict(COMMON, name="convenience", entry="h_convenience", encoded=["hwloc__memattr_get_convenience_value", "hwloc_memattr_get_value", "hwloc_memattr_set_value"], tiers={"quick": {}, "thorough": {}}, bounds="Capacity/Locality on both NUMA nodes, arbitrary local memory"),
+] + [dict(COMMON, name="value_numa%d_%s" % (0 if t == 0 else 2, ["cpuset", "object", "null"][k]), entry="h_value", defines={"TGT": t, "KIND": k, "VP_KEEP_CBMC_REALLOC": 1},
+         encoded=["hwloc_memattr_set_value", "hwloc__internal_memattr_set_value", "hwloc_memattr_get_value", "hwloc__memattr_get_target", "hwloc__memattr_target_get_initiator", "match_internal_location", "to_internal_location", "from_internal_location", "hwloc_memattr_get_initiators"],
+         # CBMC 6.11's expression simplifier mis-evaluates `u.member->field` when member is not the first union member
+         # (location->location.object->gp_index in to_internal_location): the object-kind queries do not assert on get_value's identity match
+         tiers={"quick": {}, "thorough": {}},
+         bounds="target NUMA%d; initiator kind %s (exhaustive split over targets x kinds); any cpuset over 6 bits, any value, any flags" % (0 if t == 0 else 2, ["cpuset", "object", "NULL"][k]))
+     for t in (0, 1) for k in (0, 1, 2)] + [
+  dict(COMMON, name="convenience", entry="h_convenience", encoded=["hwloc__memattr_get_convenience_value", "hwloc_memattr_get_value", "hwloc_memattr_set_value", "hwloc_memattr_get_best_target"], tiers={"quick": {}, "thorough": {}}, bounds="Capacity/Locality on both NUMA nodes, arbitrary local memory"),
   dict(COMMON, name="enum_best", entry="h_enum_best", encoded=["hwloc_memattr_get_targets", "hwloc_memattr_get_initiators", "hwloc_memattr_get_best_target", "hwloc_memattr_get_best_initiator", "hwloc__update_best_target", "hwloc__update_best_initiator"],
-       tiers={"quick": {}, "thorough": {}}, bounds="query cpuset: any subset of 6 bits; caller arrays of 0..3 slots; attribute direction symbolic", cost=40),
-  dict(COMMON, name="local", entry="h_local", encoded=["hwloc_get_local_numanode_objs", "match_local_obj_cpuset", "hwloc_topology_get_default_nodeset"], tiers={"quick": {}, "thorough": {}},
-       bounds="location: any cpuset over 6 bits, an object or NULL; any flag word; arrays of 0..3 slots", unwindset=seed_uw(**{"strcmp.0": 24, "strlen.0": 24, "strdup.0": 24, "realloc.0": 200, "qsort.0": 20, "qsort.1": 4, "qsort.2": 4})),
+       tiers={"quick": {}, "thorough": {}}, bounds="query cpuset: any subset of 6 bits; caller arrays of 0..3 slots"),
+  dict(COMMON, name="local", entry="h_local", encoded=["hwloc_get_local_numanode_objs", "match_local_obj_cpuset"], tiers={"quick": {}, "thorough": {}}, bounds="location: any cpuset over 6 bits, an object or NULL; any flag word; arrays of 0..3 slots"),
   dict(COMMON, name="refresh", entry="h_refresh", encoded=["hwloc_internal_memattrs_refresh", "hwloc__imattr_refresh", "hwloc__imtg_refresh", "hwloc__imi_refresh", "hwloc__imi_destroy", "hwloc__imtg_destroy", "hwloc_internal_memattrs_need_refresh"],
-       tiers={"quick": {}, "thorough": {}}, bounds="root cpuset shrunk to any subset of 6 bits", cost=40),
+       tiers={"quick": {}, "thorough": {}}, bounds="root cpuset shrunk to any subset of 6 bits; any subset of the referenced objects gone; cache valid or not"),
 ]
-OUTSIDE = ["memory-tier guessing (string heuristics)", "attributes without NEED_INITIATOR beyond Capacity/Locality", "XML/dup persistence (C05/C12)", "more than 2 targets x 2 initiators"]
+for e in (0, 1):
+    HARNESSES.append(dict(COMMON, name="dup" if e == 0 else "dup_emptied", entry="h_dup", defines={"EMPT": e}, encoded=["hwloc_internal_memattrs_dup", "hwloc_bitmap_tma_dup", "hwloc_tma_strdup"], tiers={"quick": {}, "thorough": {}},
+                          bounds="the table with cpuset and object initiators, arbitrary values" + ("; after a refresh removed every target of the custom attribute (array still allocated)" if e else "")))
+OUTSIDE = ["hwloc_topology_get_default_nodeset", "memory-tier guessing (string heuristics)", "attributes without NEED_INITIATOR beyond Capacity/Locality", "XML/dup persistence (C05/C12)", "more than 2 targets x 2 initiators"]
